@@ -157,6 +157,19 @@ Lemma send_dead m c x from cs : conns (ms m) !! c = Some cs -> cs_alive cs = fal
   send m c x from = Fail m.
 Proof. intros H1 H2. unfold send. rewrite H1, H2. reflexivity. Qed.
 
+Lemma send_or_remove_alive m c x from cs : conns (ms m) !! c = Some cs -> cs_alive cs = true ->
+  send_or_remove m c x from = Done (m <| mo := mo m ++ [(c, x, from)] |>).
+Proof. intros H1 H2. unfold send_or_remove. rewrite (send_alive m c x from cs H1 H2). reflexivity. Qed.
+Lemma send_or_remove_dead m c x from cs : conns (ms m) !! c = Some cs -> cs_alive cs = false ->
+  send_or_remove m c x from = Done (push_remove m c false).
+Proof. intros H1 H2. unfold send_or_remove. rewrite (send_dead m c x from cs H1 H2). reflexivity. Qed.
+Lemma send_ignore_alive m c x from cs : conns (ms m) !! c = Some cs -> cs_alive cs = true ->
+  send_ignore m c x from = Done (m <| mo := mo m ++ [(c, x, from)] |>).
+Proof. intros H1 H2. unfold send_ignore. rewrite (send_alive m c x from cs H1 H2). reflexivity. Qed.
+Lemma send_ignore_dead m c x from cs : conns (ms m) !! c = Some cs -> cs_alive cs = false ->
+  send_ignore m c x from = Done m.
+Proof. intros H1 H2. unfold send_ignore. rewrite (send_dead m c x from cs H1 H2). reflexivity. Qed.
+
 (* ---------------------------------------------------------------- tactic *)
 (* decompose a goal [oext K m0 e] / [extends K m0 m'] along the structure of the model term *)
 Ltac ext_leaf :=
